@@ -41,7 +41,7 @@ func (r *renderer) val(v ssa.Value, d int) string {
 	if v == nil {
 		return "<nil>"
 	}
-	if d > 16 {
+	if d > 28 {
 		return "…"
 	}
 	switch x := v.(type) {
